@@ -76,6 +76,56 @@ pub fn scenarios(cfg: &str) -> Vec<Vec<Ev>> {
     if cfg_num(cfg, "init", 0) != 0 || cfg_num(cfg, "big", 0) == 1 {
         return vec![];
     }
+    let mut out = deep_scenarios();
+    out.extend(base_scenarios());
+    out
+}
+
+fn deep_scenarios() -> Vec<Vec<Ev>> {
+    let e = Ev::new;
+    let mut v = vec![];
+    // deep queues: n single-permit requests, interior ones cancelled; (a) one release satisfies everybody,
+    // (b) permits trickle in one by one
+    for (n, cancel, newest_first) in crate::hist::deep_queue_patterns(&[5, 6, 8]) {
+        for trickle in [false, true] {
+            let mut s = vec![];
+            for i in 0..n {
+                s.push(e(CREATE, i, 1));
+                s.push(e(POLL, i, 0));
+            }
+            for c in &cancel {
+                s.push(e(DROP_FUT, *c, 0));
+            }
+            let rest = crate::hist::deep_rest(n, &cancel);
+            if trickle {
+                for round in 0..rest.len() {
+                    s.push(e(RELEASE, 1, 0));
+                    if newest_first {
+                        for i in rest.iter().rev() {
+                            s.push(e(POLL, *i, 1));
+                        }
+                    } else {
+                        s.push(e(POLL, rest[round], 1));
+                    }
+                }
+            } else {
+                s.push(e(RELEASE, 4, 0));
+                let mut order = rest.clone();
+                if newest_first {
+                    order.reverse();
+                }
+                for i in order {
+                    s.push(e(POLL, i, 1));
+                }
+            }
+            v.push(s);
+        }
+    }
+    v
+}
+
+fn base_scenarios() -> Vec<Vec<Ev>> {
+    let e = Ev::new;
     vec![
         // D1a shape: cancel the waiting head while a smaller request behind it fits
         vec![e(CREATE, 0, 2), e(POLL, 0, 0), e(CREATE, 1, 1), e(POLL, 1, 0), e(RELEASE, 1, 0), e(DROP_FUT, 0, 0)],
